@@ -77,7 +77,7 @@ New(max, weight, lockFast) ==
   LET id == NextId
   IN /\ bos' = Append(bos, [maxSleep |-> Weighted(max, weight), total |-> 0, excluded |-> 0, sleepMs |-> ZeroMap,
                             times |-> ZeroMap, attempts |-> ZeroMap, errorsNum |-> 0, parent |-> 0, ctx |-> id,
-                            group |-> id, weight |-> weight, lockFast |-> lockFast, cfgs |-> {}, dead |-> FALSE])
+                            group |-> id, weight |-> weight, lockFast |-> lockFast, cfgs |-> {}, dead |-> FALSE, foreign |-> FALSE])
      /\ ctxParent' = Append(ctxParent, 0)
      /\ UNCHANGED <<cancelled, killed>>
 
@@ -118,16 +118,18 @@ Merge(b, f) ==
   /\ IF IsAncestor(b, f)
      THEN bos' = [bos EXCEPT ![b].total = bos[f].total, ![b].excluded = bos[f].excluded,
                              ![b].errorsNum = bos[f].errorsNum, ![b].sleepMs = bos[f].sleepMs,
-                             ![b].times = bos[f].times, ![f].dead = TRUE]
+                             ![b].times = bos[f].times, ![f].dead = TRUE,
+                             \* totals slept under another budget (the fork's was reset to a different one) are not b's own
+                             ![b].foreign = bos[b].foreign \/ bos[f].foreign \/ bos[f].maxSleep # bos[b].maxSleep]
      ELSE UNCHANGED bos
   /\ UNCHANGED <<ctxParent, cancelled, killed>>
 Reset(b) ==
   /\ b \in Ids /\ ~bos[b].dead
-  /\ bos' = [bos EXCEPT ![b].total = 0, ![b].excluded = 0, ![b].attempts = ZeroMap]
+  /\ bos' = [bos EXCEPT ![b].total = 0, ![b].excluded = 0, ![b].attempts = ZeroMap, ![b].foreign = FALSE]
   /\ UNCHANGED <<ctxParent, cancelled, killed>>
 ResetMaxSleep(b, m) ==
   /\ b \in Ids /\ ~bos[b].dead
-  /\ bos' = [bos EXCEPT ![b].total = 0, ![b].excluded = 0, ![b].attempts = ZeroMap,
+  /\ bos' = [bos EXCEPT ![b].total = 0, ![b].excluded = 0, ![b].attempts = ZeroMap, ![b].foreign = FALSE,
                         ![b].maxSleep = Weighted(m, bos[b].weight)]
   /\ UNCHANGED <<ctxParent, cancelled, killed>>
 Cancel(b) == /\ b \in Ids /\ cancelled' = cancelled \cup {bos[b].ctx} /\ UNCHANGED <<bos, ctxParent, killed>>
@@ -135,10 +137,11 @@ Kill(b) == /\ b \in Ids /\ killed' = killed \cup {bos[b].group} /\ UNCHANGED <<b
 
 (********************************* properties *********************************)
 \* non-excluded sleep never exceeds the budget by more than one step
-WithinBudget == \A b \in Ids : bos[b].maxSleep > 0 =>
+\* (totals merged in from a fork that slept under a different budget are exempt until the next reset)
+WithinBudget == \A b \in Ids : (bos[b].maxSleep > 0 /\ ~bos[b].foreign) =>
                    (bos[b].total - bos[b].excluded) <= bos[b].maxSleep + MaxStep
 \* excluded sleep is bounded by its own limit (or the budget if larger) plus one step
-ExcludedBounded == \A b \in Ids : bos[b].maxSleep > 0 =>
+ExcludedBounded == \A b \in Ids : (bos[b].maxSleep > 0 /\ ~bos[b].foreign) =>
                    bos[b].excluded <= Max(ExcludedLimit, bos[b].maxSleep) + MaxStep
 Accounting == \A b \in Ids :
    /\ bos[b].total >= bos[b].excluded /\ bos[b].excluded >= 0
